@@ -24,6 +24,7 @@ UNDECIDED_KINDS = ('Resource limit (rlimit) exceeded', 'rlimit', 'timed out', 's
 TEMPLATES = {
     'arena': ('arena.vtmpl', 'src/lib.rs'),
     'rawvec': ('rawvec.vtmpl', 'src/collections/raw_vec.rs'),
+    'vecpanic': ('vecpanic.vtmpl', 'src/collections/vec.rs'),
 }
 
 
